@@ -31,6 +31,8 @@ WORKERS = int(os.environ.get('VERIF_TLC_WORKERS', '8'))
 # SIGTERM / SIGINT / SIGHUP (a killed check must not leave a JVM behind)
 # ------------------------------------------------------------------------------------------------
 TLC_TIMEOUT = int(os.environ.get('VERIF_TLC_TIMEOUT', '1500'))
+# recursive operators on matrices of a few hundred entries need more than the default thread stack of the JVM
+JVM_ENV = dict(JAVA_TOOL_OPTIONS='-Xss32m')
 
 
 def _descendants(pid):
@@ -871,7 +873,7 @@ def run_site_tables(ctx):
 def run_replay_mc(ctx, lattices, maxdecl, name, trace_items, stride=1, profile='mc', need_all_actions=True, trace_all=False,
                   invariants=INVARIANTS):
     res, dump, d = tlc.mc('MPOGraph', decl_cfg(lattices, maxdecl, profile, invariants=invariants), dump=True, workers=WORKERS,
-                          timeout=TLC_TIMEOUT)
+                          timeout=TLC_TIMEOUT, env=JVM_ENV)
     ctx.add_mc(name, res)
     if res.violated:
         ctx.violation(dict(kind='mc', spec='ModelDecl', invariant=res.violated[0]),
@@ -902,7 +904,7 @@ def run_replay_mc(ctx, lattices, maxdecl, name, trace_items, stride=1, profile='
 def run_replay_sim(ctx, lattices, maxdecl, num, trace_items):
     per_worker = max(1, num // 4)
     res, traces, d = tlc.simulate('MPOGraph', decl_cfg(lattices, maxdecl, 'sim', invariants=[]), num=per_worker,
-                                  depth=2 * maxdecl + 2, seed=ctx.seed + 10, workers=4, timeout=TLC_TIMEOUT)
+                                  depth=2 * maxdecl + 2, seed=ctx.seed + 10, workers=4, timeout=TLC_TIMEOUT, env=JVM_ENV)
     shutil.rmtree(d, ignore_errors=True)
     n = 0
     for j, tr in enumerate(traces):
